@@ -172,18 +172,15 @@ Proof.
   intros H. apply andb_prop in H. destruct H as [H1 H2]. rewrite H1. cbn. apply IH. assumption.
 Qed.
 
-Definition history_short (ops : list op) : Prop := N.of_nat (length ops) < 4294967296.
-
 Lemma prefix_inv c ops pre :
-  cfg_ok c = true -> policy_ok c ops -> api_ok c ops -> history_short ops -> prefix pre ops ->
-  Inv c (N.of_nat (length pre)) (run c pre)
+  cfg_ok c = true -> policy_ok c ops -> api_ok c ops -> prefix pre ops ->
+  Inv c 0 (run c pre)
   /\ Forall (fun x => is_stop (fst x) = false) (trace_from c (init c) pre).
 Proof.
-  intros Hc Hp Ha Hs (suf & ->). pose proof (cfg_ok_facts c Hc) as F.
-  unfold policy_ok, api_ok, history_short in *. apply hist_ok_app in Hp. apply hist_ok_app in Ha.
-  rewrite app_length, Nat2N.inj_add in Hs.
-  pose proof (run_inv c F pre 0 (init c) (init_inv c F) ltac:(lia) (conj Hp Ha)) as [I T].
-  rewrite N.add_0_l in I. split; assumption.
+  intros Hc Hp Ha (suf & ->). pose proof (cfg_ok_facts c Hc) as F.
+  unfold policy_ok, api_ok in *. apply hist_ok_app in Hp. apply hist_ok_app in Ha.
+  pose proof (run_inv c F pre (init c) (init_inv c F) (conj Hp Ha)) as [I T].
+  split; assumption.
 Qed.
 
 (* ---------- the statement of DESIGN Appendix A ---------- *)
@@ -201,7 +198,7 @@ Qed.
 
 Theorem C01_main :
   forall (c : cfg) (ops : list op),
-    cfg_ok c = true -> policy_ok c ops -> api_ok c ops -> history_short ops ->
+    cfg_ok c = true -> policy_ok c ops -> api_ok c ops ->
     forall pre, prefix pre ops ->
     let s := run c pre in
     Forall (fun x => is_stop (fst x) = false) (trace_from c (init c) pre)
@@ -213,8 +210,8 @@ Theorem C01_main :
        /\ N.divide (align_of c (N.max n 1)) p
        /\ size_of c s p = size_when_allocated s p.
 Proof.
-  intros c ops Hc Hp Ha Hs pre Hpre s.
-  destruct (prefix_inv c ops pre Hc Hp Ha Hs Hpre) as [I T]. fold s in I.
+  intros c ops Hc Hp Ha pre Hpre s.
+  destruct (prefix_inv c ops pre Hc Hp Ha Hpre) as [I T]. fold s in I.
   pose proof (cfg_ok_facts c Hc) as F.
   split; [exact T|].
   intros p n Hl. destruct (live_req_some s p n Hl) as (b & Hb & <- & <- & Hfind).
@@ -233,13 +230,12 @@ Qed.
 (* allocate / realloc succeed whenever the policy does ("later requests succeed as soon as mapping succeeds again") *)
 Theorem alloc_succeeds c ops n r :
   cfg_ok c = true -> policy_ok c (ops ++ [Alloc n (MapRet r)]) -> api_ok c (ops ++ [Alloc n (MapRet r)]) ->
-  history_short (ops ++ [Alloc n (MapRet r)]) -> r <> 0 ->
+  r <> 0 ->
   exists p, res_of (step c (run c ops) (Alloc n (MapRet r))) = RPtr p /\ p <> 0.
 Proof.
-  intros Hc Hp Ha Hs Hr. pose proof (cfg_ok_facts c Hc) as F.
-  destruct (prefix_inv c _ ops Hc Hp Ha Hs ltac:(eexists; reflexivity)) as [I _].
-  assert (Hs' : N.of_nat (length ops) + 1 < 4294967296).
-  { unfold history_short in Hs. rewrite app_length, Nat2N.inj_add in Hs. cbn in Hs. lia. }
+  intros Hc Hp Ha Hr. pose proof (cfg_ok_facts c Hc) as F.
+  destruct (prefix_inv c _ ops Hc Hp Ha ltac:(eexists; reflexivity)) as [I _].
+  assert (Hs' : 0 + 1 < 4294967296) by lia.
   assert (Hpol : op_policy_ok c (run c ops) (Alloc n (MapRet r)) = true).
   { unfold policy_ok in Hp. clear - Hp. unfold run. revert Hp. generalize (init c). induction ops as [|o l IH]; intros s0; cbn.
     - rewrite andb_true_r. auto.
